@@ -13,6 +13,16 @@ ASSUMPTIONS = ["theorems are about the Lean model Part.makeChildren/deepen; the 
 TRUSTED = ["harness/part_cases.py + harness/common.py (instrumented subclasses, canonical dump)", "lean/PyXABModel/Drv (driver parser/printer)"]
 
 
+LEAN_EXTRA = ["PyXABProofs.Generated.Indices"]
+
+
+def regenerate(tier):
+    """translator tie for the index labels: the real make_children of each class is run with a SYMBOLIC parent index
+    and the traced child labels are re-proved equal to the model's `childIndex` (omega) on every run"""
+    import translate_geometry
+    return translate_geometry.generate(tier)
+
+
 def budget(tier):
     return {"quick": 150, "thorough": 2500}[tier]
 
@@ -24,7 +34,14 @@ def explore(tier, seed, n):
     import algo_prop
     cases = [part_cases.gen_partition_case(seed, i, wellformed=(i % 5 != 4)) for i in range(n)]
     per = {"quick": 3, "thorough": 40}[tier]
-    cases += algo_prop.run_cases([(seed + 300, i, a, None) for a in ALGOS for i in range(per)])
+    acases = algo_prop.run_cases([(seed + 300, i, a, None) for a in ALGOS for i in range(per)])
+    # The C03 theorems are about the partition operations; an algorithm run is tied to them by checking, on the live
+    # objects, that every make_children call it issues is a *legal op* of `ops_WF` (leaf target, right flag) and that
+    # the five clauses hold after every round.  The algorithms' own decisions (which cell to expand) are not part of
+    # C03, so their lock-step lines are not compared here (they are in C01/C04-C13).
+    for c in acases:
+        c.ops = [(l, None) for l, _e in c.ops]
+    cases += acases
     mism, n_ops = fw.compare(cases)
     return {"cases": cases, "mism": mism, "n_ops": n_ops}
 
